@@ -614,5 +614,50 @@ fn main() {
         exact_space(&ctx, 4, z3(), "{0,1,-1}");
         f64_space(&ctx, 4, z3(), "{0,1,-1}");
     }
+    // Known findings: (1) Complex<f64> determinant / inverse beyond |z| ~ 1e154 / below ~ 1e-154 (unscaled Complex::abs and complex
+    // division, see C01); (2) the f64 determinant is the running product of the pivots, which over- or underflows although
+    // the determinant itself is representable. Repairing (2) means carrying a scaled product (mantissa / exponent): not a small patch.
+    {
+        ctx.known_cases(
+            "listed inputs: determinants / inverses whose intermediate quantities leave the double range",
+            vec![
+                ("extreme-complex determinant [[1e-170,1],[1e-170,2]]".to_string(), Box::new(|| {
+                    let z = |re: f64| Cmplx::new(re, 0.0);
+                    let mut a = Matrix::<Cmplx>::new(2, 2, z(0.0));
+                    a[(0, 0)] = z(1e-170);
+                    a[(0, 1)] = z(1.0);
+                    a[(1, 0)] = z(1e-170);
+                    a[(1, 1)] = z(2.0);
+                    let d = a.determinant();
+                    ensure!((d.real - 1e-170).abs() <= 1e-182 && d.imag == 0.0, "determinant = {:?} but the exact value is 1e-170", d);
+                    Ok(())
+                })),
+                ("extreme-complex inverse [[1e200]]".to_string(), Box::new(|| {
+                    let a = Matrix::<Cmplx>::new(1, 1, Cmplx::new(1e200, 0.0));
+                    let inv = a.inverse();
+                    ensure!((inv[(0, 0)].real - 1e-200).abs() <= 1e-212 && inv[(0, 0)].imag == 0.0, "inverse = {:?} but the exact value is 1e-200", inv[(0, 0)]);
+                    Ok(())
+                })),
+                ("partial-product determinant diag(1e200, 1e200, 1e-300)".to_string(), Box::new(|| {
+                    let mut a = Matrix::<f64>::new(3, 3, 0.0);
+                    a[(0, 0)] = 1e200;
+                    a[(1, 1)] = 1e200;
+                    a[(2, 2)] = 1e-300;
+                    let d = a.determinant();
+                    ensure!((d - 1e100).abs() <= 1e88, "determinant = {:e} but the exact value is 1e100", d);
+                    Ok(())
+                })),
+                ("partial-product determinant diag(1e-200, 1e-200, 1e300)".to_string(), Box::new(|| {
+                    let mut a = Matrix::<f64>::new(3, 3, 0.0);
+                    a[(0, 0)] = 1e-200;
+                    a[(1, 1)] = 1e-200;
+                    a[(2, 2)] = 1e300;
+                    let d = a.determinant();
+                    ensure!((d - 1e-100).abs() <= 1e-112, "determinant = {:e} but the exact value is 1e-100 (the matrix is nonsingular)", d);
+                    Ok(())
+                })),
+            ],
+        );
+    }
     std::process::exit(ctx.finish());
 }
